@@ -789,6 +789,8 @@ fn check_meridian(c: &LatCase, rec: &mut Rec) -> CaseResult {
 /// kind 0: direct problem data (lon1, lat1, azimuth p, distance q in metres on an Earth-sized body)
 /// kind 1: meridional pair (lon1, lat1, lat2 = p; q = 0 same meridian, q = 1 opposite meridian over the nearer pole)
 /// kind 2: equatorial (lon1, lat1 = 0 or tiny, p = +-1 direction, q = longitude difference in rad)
+/// kind 3: end points on opposite meridians, all four numbers in DEGREES as a user spells them:
+///         (lon1, lat1, lat2 = p, lon2 = q) with lon2 - lon1 = +-180 (+-360): meridian arc over the nearer pole
 #[derive(Clone, Debug, Serialize, Deserialize)]
 struct Line {
     kind: u8,
@@ -896,8 +898,10 @@ fn check_geodesics(c: &GeoCase, rec: &mut Rec) -> CaseResult {
     let mut op_in: Vec<Coor4D> = vec![];
     // (lat1, lon1, az, s) deg/m, trait results (lon2, lat2, az2), (az1, az2, s), reduced length, cross-track tolerance
     let mut op_lines: Vec<([f64; 4], [f64; 3], [f64; 3], f64, f64)> = vec![];
+    // over-the-pole pairs for the operator: (lat1, lon1, lat2, lon2) deg, expected (az1, az2 rad, s), tolerance, latitudes
+    let mut op_pairs: Vec<([f64; 4], [f64; 3], f64, (f64, f64))> = vec![];
     for (i, ln) in c.lines.iter().enumerate() {
-        let (lon1, lat1) = (ln.lon1.0, ln.lat1.0);
+        let (lon1, lat1) = if ln.kind == 3 { (ln.lon1.0.to_radians(), ln.lat1.0.to_radians()) } else { (ln.lon1.0, ln.lat1.0) };
         // conditioning of azimuths: the meridian direction turns by d/(a cos lat) when the point moves by d
         let cond = |lat: f64| 1.0 / lat.cos().abs().max(1e-300);
         rec.class(lat_class(lat1));
@@ -989,9 +993,10 @@ fn check_geodesics(c: &GeoCase, rec: &mut Rec) -> CaseResult {
                 op_lines.push(([lat1, lon1, az, s], p2, iv, m12, tol_x));
                 rec.class(if e.r.f == 0.0 { "geodesic: on a sphere" } else if s / e.sc < 10.0 { "geodesic: shorter than 10 m" } else if s / e.sc > 1.0e7 { "geodesic: longer than 10 000 km" } else { "geodesic: generic" });
             }
-            1 => {
-                let lat2 = ln.p.0;
-                let over = ln.q.0 != 0.0;
+            1 | 3 => {
+                let opposite = ln.kind == 3;
+                let lat2 = if opposite { ln.p.0.to_radians() } else { ln.p.0 };
+                let over = opposite || ln.q.0 != 0.0;
                 let (m1, m2, q) = (e.r.meridian_arc(lat1), e.r.meridian_arc(lat2), e.r.meridian_quadrant());
                 let north = lat1 + lat2 >= 0.0;
                 let (s, lon2, az) = if !over {
@@ -1001,7 +1006,12 @@ fn check_geodesics(c: &GeoCase, rec: &mut Rec) -> CaseResult {
                 } else {
                     (2.0 * q + m1 + m2, lon1 + PI, PI)
                 };
-                let what = format!("line {i}: meridional lat2={lat2:?} over the pole: {over}");
+                let lon2 = if opposite { ln.q.0.to_radians() } else { lon2 };
+                let what = if opposite {
+                    format!("line {i}: opposite meridians (lat, lon) = ({:?}, {:?}) -> ({:?}, {:?}) deg, meridian arc over the {} pole", ln.lat1.0, ln.lon1.0, ln.p.0, ln.q.0, if north { "north" } else { "south" })
+                } else {
+                    format!("line {i}: meridional lat2={lat2:?} over the pole: {over}")
+                };
                 let iv = g.inv((lon1, lat1), (lon2, lat2), &what)?;
                 let tol = tol_ref(s);
                 if over {
@@ -1028,7 +1038,39 @@ fn check_geodesics(c: &GeoCase, rec: &mut Rec) -> CaseResult {
                         vfail!("geodesic-meridional-azimuth", "{} [{what}]: geodesic_inv(({lon1:?}, {lat1:?}), ({lon2:?}, {lat2:?})) azimuths ({:?}, {:?}), expected {az:?} at the start and {:?} at the end", e.label, iv[0], iv[1], if over { PI - az } else { az });
                     }
                 }
-                rec.class(if over { "geodesic: meridional over a pole" } else { "geodesic: meridional" });
+                if over {
+                    // symmetry in the end points, distance(), consistency with the direct problem
+                    let vi = g.inv((lon2, lat2), (lon1, lat1), &what)?;
+                    let az_back = if north { 0.0 } else { PI };
+                    if w.over("over a pole: inverse symmetry, distance (m)", (vi[2] - iv[2]).abs().max((vi[2] - s).abs() - tol).max(0.0), tol_c) {
+                        vfail!("geodesic-meridional-distance", "{} [{what}]: geodesic_inv(P2,P1) s={:?}, geodesic_inv(P1,P2) s={:?}, meridian arc over the pole by quadrature {s:?}", e.label, vi[2], iv[2]);
+                    }
+                    if s > 1.0 * e.sc && lat1.abs() < 1.57 && lat2.abs() < 1.57 {
+                        let m12 = a * ((s / a).sin().abs() + 0.05 * s / a);
+                        let da = wrap_pi(vi[0] - az_back).abs().max(wrap_pi(vi[1] - (PI - az_back)).abs());
+                        if w.over("meridional: azimuths x reduced length (m)", da * m12, tol + 8.0 * EPS * a * (cond(lat1) + cond(lat2))) {
+                            vfail!("geodesic-meridional-azimuth", "{} [{what}]: geodesic_inv(P2,P1) azimuths ({:?}, {:?}), expected {az_back:?} at the start and {:?} at the end", e.label, vi[0], vi[1], PI - az_back);
+                        }
+                    }
+                    for (from, to) in [((lon1, lat1), (lon2, lat2)), ((lon2, lat2), (lon1, lat1))] {
+                        let dd = match guard(|| e.lib.distance(&c2(from.0, from.1), &c2(to.0, to.1))) {
+                            Ok(v) => v,
+                            Err(p) => vfail!(format!("panic-distance@{}", p.sig()), "{}.distance({from:?}, {to:?}) panics: {}", e.label, p.msg),
+                        };
+                        if w.over("over a pole: distance() vs quadrature (m)", (dd - s).abs(), tol) {
+                            vfail!("geodesic-meridional-distance", "{} [{what}]: distance({from:?}, {to:?}) = {dd:?} (lon, lat in rad), meridian arc over the pole by quadrature {s:?} (tolerance {tol:e})", e.label);
+                        }
+                    }
+                    // the direct problem with the inverse solution arrives at P2
+                    let arrive = g.fwd(lon1, lat1, iv[0], iv[2], &what)?;
+                    let d = chord(&e.r, (lon2, lat2), (arrive[0], arrive[1]));
+                    if w.over("over a pole: inverse -> direct end point (m)", d, tol_c + tol + 8.0 * EPS * a * (cond(lat1) + cond(lat2)).min(1e30) * ((s / a).sin().abs() + 0.05 * s / a)) {
+                        vfail!("geodesic-inverse-direct", "{} [{what}]: geodesic_inv gives az={:?} s={:?}; geodesic_fwd with these arrives at ({:?}, {:?}), {d:e} m from P2=({lon2:?}, {lat2:?})", e.label, iv[0], iv[2], arrive[0], arrive[1]);
+                    }
+                    let deg = if opposite { [ln.lat1.0, ln.lon1.0, ln.p.0, ln.q.0] } else { [lat1.to_degrees(), lon1.to_degrees(), lat2.to_degrees(), lon2.to_degrees()] };
+                    op_pairs.push((deg, [az, PI - az, s], tol, (lat1, lat2)));
+                }
+                rec.class(if opposite && lat1 == lat2 { "geodesic: opposite meridians, equal latitudes" } else if opposite { "geodesic: opposite meridians, different latitudes" } else if over { "geodesic: meridional over a pole" } else { "geodesic: meridional" });
             }
             _ => {
                 let (dir, dl) = (ln.p.0.signum(), ln.q.0);
@@ -1107,6 +1149,40 @@ fn check_geodesics(c: &GeoCase, rec: &mut Rec) -> CaseResult {
             }
         }
         rec.count("operator evaluations", 8 * op_lines.len() as u64);
+    }
+    if let (Some(text), false) = (&e.text, op_pairs.is_empty()) {
+        let mut ctx = Minimal::new();
+        let plain = format!("geodesic ellps={text}");
+        let rev = format!("geodesic reversible ellps={text}");
+        let (op_plain, op_rev) = (instantiate(&mut ctx, &plain)?, instantiate(&mut ctx, &rev)?);
+        let input: Vec<Coor4D> = op_pairs.iter().map(|p| Coor4D(p.0)).collect();
+        let mut out = input.clone();
+        apply(&ctx, op_plain, false, &plain, &mut out)?;
+        let mut back = input.clone();
+        apply(&ctx, op_rev, false, &rev, &mut back)?;
+        let mid = back.clone();
+        apply(&ctx, op_rev, true, &rev, &mut back)?;
+        for (k, (deg, want, tol, lats)) in op_pairs.iter().enumerate() {
+            let (d, m, b) = (&out[k], &mid[k], &back[k]);
+            let s = want[2];
+            let m12 = a * ((s / a).sin().abs() + 0.05 * s / a);
+            let tol_a = tol + 64.0 * EPS * a * (1.0 / lats.0.cos().abs().max(1e-300) + 1.0 / lats.1.cos().abs().max(1e-300));
+            let check_az = s > 1.0 * e.sc && lats.0.abs() < 1.57 && lats.1.abs() < 1.57;
+            let da = wrap_pi(d[0].to_radians() - want[0]).abs().max(wrap_pi(d[1].to_radians() - want[1]).abs()).max(wrap_pi(d[3].to_radians() - want[1] - PI).abs());
+            let bad = !d.0.iter().all(|v| v.is_finite());
+            if bad || w.over("over a pole: operator distance vs quadrature (m)", (d[2] - s).abs(), *tol) || (check_az && w.over("over a pole: operator azimuths x reduced length (m)", da * m12, tol_a)) {
+                vfail!("geodesic-operator-meridional", "'{plain}' inverse of (lat1, lon1, lat2, lon2) = {deg:?} gives {}; expected azimuths {:?}, {:?} deg, the meridian arc over the pole {s:?} m (tolerance {tol:e}) and the return azimuth {:?}", fmt_c4(d), want[0].to_degrees(), want[1].to_degrees(), (want[1] + PI).to_degrees());
+            }
+            if w.over("over a pole: reversible operator distance vs quadrature (m)", (m[3] - s).abs(), *tol) {
+                vfail!("geodesic-operator-meridional", "'{rev}' inverse of (lat1, lon1, lat2, lon2) = {deg:?} gives {} (lat2, lon2, return azimuth, distance); expected distance {s:?} (tolerance {tol:e})", fmt_c4(m));
+            }
+            let d1 = chord(&e.r, (deg[1].to_radians(), deg[0].to_radians()), (b[1].to_radians(), b[0].to_radians()));
+            let d2 = chord(&e.r, (deg[3].to_radians(), deg[2].to_radians()), (b[3].to_radians(), b[2].to_radians()));
+            if w.over("over a pole: reversible operator round trip (m)", d1.max(d2), 2.0 * tol_c + tol_a * (1.0 + m12 / a)) {
+                vfail!("geodesic-operator-roundtrip", "'{rev}': inverse then forward of {deg:?} gives {}: {:e} m off", fmt_c4(b), d1.max(d2));
+            }
+        }
+        rec.count("operator evaluations", 3 * op_pairs.len() as u64);
     }
     w.flush(rec);
     rec.class(ell_class(&c.ell));
@@ -1255,7 +1331,17 @@ fn line_strategy() -> impl Strategy<Value = Line> {
         let lat2 = if lat2 == lat1 { lat1 * 0.5 + 0.1 } else { lat2 };
         Line { kind: 1, lon1: F(lon1), lat1: F(lat1), p: F(lat2), q: F(if over { 1.0 } else { 0.0 }) }
     });
-    prop_oneof![6 => direct, 2 => meridional]
+    let opposite = (-180.0f64..180.0, any::<bool>(), any::<u16>(), lat_strategy(), lat_strategy(), any::<bool>()).prop_map(|(lon1, plus, sp, l1, l2, equal)| {
+        // a latitude pair whose sum is at least 10 degrees from zero (19 000 km limit), equal half of the time
+        let l1 = l1.to_degrees();
+        let l1 = if l1.abs() < 5.0 { 5.0f64.copysign(l1) + l1 } else { l1 };
+        let l2 = if equal { l1 } else { l2.to_degrees().abs().copysign(l1) };
+        let l2 = if (l1 + l2).abs() < 10.0 { l1 } else { l2 };
+        let lon1 = [lon1, lon1.round(), 0.0, 180.0, -90.0, 10.0][pick(sp, 6)];
+        let lon2 = lon1 + if plus { 180.0 } else { -180.0 };
+        Line { kind: 3, lon1: F(lon1), lat1: F(l1), p: F(l2), q: F(lon2) }
+    });
+    prop_oneof![6 => direct, 2 => meridional, 1 => opposite]
 }
 
 fn equatorial_line(i: usize) -> Line {
@@ -1268,6 +1354,30 @@ fn equatorial_line(i: usize) -> Line {
     let lat = LAT[(i / 24) % 4];
     let lon = [0.0, -3.0, 1.5, 3.1][(i / 24) % 4];
     Line { kind: 2, lon1: F(lon), lat1: F(lat), p: F(dir), q: F(dl) }
+}
+
+/// end points on opposite meridians: 14 spellings of a longitude difference of +-180 (+-360) degrees
+/// x 17 equal-latitude and 14 different-latitude pairs, north and south, from 5 deg to 1e-9 deg from the pole
+fn opposite_lines() -> Vec<Line> {
+    const LON: [(f64, f64); 14] = [
+        (0.0, 180.0), (-90.0, 90.0), (90.0, -90.0), (10.0, -170.0), (-170.0, 10.0), (180.0, 0.0), (0.0, -180.0), (-180.0, 0.0),
+        (0.0, 540.0), (0.0, -540.0), (360.0, 180.0), (-360.0, -180.0), (123.456, -56.544), (-45.5, 134.5),
+    ];
+    const EQUAL: [f64; 17] = [5.0, -5.0, 10.0, -10.0, 30.0, -30.0, 45.0, -45.0, 60.0, -60.0, 75.0, -75.0, 89.0, -89.0, 89.999, -89.999, 89.999999999];
+    const DIFF: [(f64, f64); 14] = [
+        (0.001, 12.0), (5.0, 6.0), (20.0, 70.0), (70.0, 20.0), (60.0, 70.0), (89.0, 89.5), (10.0, 0.0), (-30.0, 45.0), (-5.0, 20.0),
+        (-0.001, -12.0), (-20.0, -70.0), (-45.0, -46.0), (30.0, -45.0), (90.0, 60.0),
+    ];
+    let mut v = vec![];
+    for (lon1, lon2) in LON {
+        for lat in EQUAL {
+            v.push(Line { kind: 3, lon1: F(lon1), lat1: F(lat), p: F(lat), q: F(lon2) });
+        }
+        for (l1, l2) in DIFF {
+            v.push(Line { kind: 3, lon1: F(lon1), lat1: F(l1), p: F(l2), q: F(lon2) });
+        }
+    }
+    v
 }
 
 /// deterministic lattices for the exhaustive sweep over the table
@@ -1422,6 +1532,20 @@ fn main() {
         );
     }
 
+    {
+        let names = lib_names.clone();
+        run.enumerate(
+            "geodesic-opposite-meridians",
+            "every table entry and 5 synthetic ellipsoids x 434 pairs of end points on opposite meridians (14 spellings of dlon = +-180 (+-360) deg: 0/180, -90/90, 10/-170, 180/0, 0/540 ... x 17 equal and 14 different latitude pairs, both hemispheres, 5 deg .. 1e-9 deg from the pole, total length <= 19000 km): distance = meridian arc over the nearer pole by quadrature, azimuths 0/180, symmetry in the end points, distance(), inverse -> direct arrives, geodesic operator (plain inverse mode, reversible round trip)",
+            nt + 5,
+            move |k| {
+                let ell = if k < nt { Ell::named(&names[k]) } else { [Ell::af(6378137.0, 150.0), Ell::af(1.0, 298.0), Ell::af(6.0e6, 0.0), Ell::af(7.0e6, 1000.0), Ell::af(2.5e3, 200.0)][k - nt].clone() };
+                GeoCase { ell, lines: opposite_lines() }
+            },
+            check_geodesics,
+        );
+    }
+
     // random ellipsoids and random points
     let names = lib_names.clone();
     let n = run.scale(12_000, 200_000);
@@ -1448,7 +1572,7 @@ fn main() {
         || (ell_strategy(names.clone()), prop::collection::vec(lat_strategy(), 32)).prop_map(|(ell, l)| LatCase { ell, lats: l.into_iter().map(F).collect() }),
         check_meridian,
     );
-    let n = run.scale(16_000, 300_000);
+    let n = run.scale(10_000, 300_000);
     run.section(
         "geodesic",
         "random ellipsoid x 32 random geodesics (75% direct-problem data: any start incl. poles, any azimuth incl. cardinal ones, 1 mm .. 19000 km; 25% meridional pairs, same meridian or over a pole): as table-geodesic",
